@@ -69,7 +69,7 @@ fn replay(path: &str, out: &mut dyn Write) {
                 let obs = r.op(toks[1], toks[2], &toks[3..]);
                 writeln!(out, "{}", obs).unwrap();
             }
-            Some("fn") | Some("fnrange") => writeln!(out, "{}", pure::eval(&toks)).unwrap(),
+            Some("fn") | Some("fnrange") => writeln!(out, "{}", pure::eval_caught(&toks)).unwrap(),
             Some("end") => {
                 if runner.is_none() {
                     writeln!(out, "end").unwrap();
@@ -107,6 +107,7 @@ const PROFILES: &[Profile] = &[
     prof("grow", "map", "grow"),
     prof("churn", "map", "churn"),
     Profile { steps: Some(4000), ..prof("churn-long", "map", "churn") },
+    Profile { steps: Some(3000), ..prof("churn-window", "map", "churn") },
     prof("saturate", "map", "saturate"),
     prof("mixed", "map", "mixed"),
     prof("reserve", "map", "reserve"),
@@ -220,12 +221,13 @@ fn make_base(prof: &Profile, seed: u64, i: usize, real: Option<&mut dyn Write>) 
     let odd = prof.coll == "map" && !prof.gen.starts_with("entry") && prof.name != "entry-sat" && prof.drop.is_none() && rng.chance(1, 7);
     let (drop, lay) = if odd { (false, "odd5") } else { (drop, lay) };
     let universe = *rng.pick(&[4u64, 8, 12, 16, 24, 32, 64, 200]);
-    let universe = if prof.gen == "saturate" { 4096 } else { universe };
+    let universe = if prof.gen == "saturate" || prof.name == "churn-window" { 4096 } else { universe };
     let kind = *rng.pick(gen::PLAN_KINDS);
     // spread-out homes: some keys find an EMPTY bucket first although the table is tombstone-saturated
     let kind = if prof.name == "entry-sat" && rng.chance(2, 3) { "mixed" } else { kind };
     let scripted = prof.name == "entry-sat" && rng.chance(1, 4);
     let kind = if scripted { "sequential" } else { kind };
+    let kind = if prof.name == "churn-window" && rng.chance(2, 3) { "sequential" } else { kind };
     let steps = match prof.gen {
         "saturate" => prof.steps.unwrap_or(150 + rng.below(250) as usize),
         _ => prof.steps.unwrap_or(20 + rng.below(200) as usize),
@@ -471,10 +473,14 @@ fn main() {
             let mut real = std::io::BufWriter::new(std::fs::File::create(format!("{}.real", out)).unwrap());
             writeln!(ops, "scn pure-{} coll=pure w={}", seed, hashbrown::verif::GROUP_WIDTH).unwrap();
             writeln!(real, "scn pure-{}", seed).unwrap();
+            journal(&format!("scn pure-{} coll=pure w={}", seed, hashbrown::verif::GROUP_WIDTH));
             for l in pure::generate(seed, thorough) {
                 writeln!(ops, "{}", l).unwrap();
+                // journalled before it runs: a call that aborts the process (e.g. the unsafe-precondition
+                // check of Layout::from_size_align_unchecked) is the last line of the journal
+                journal(&l);
                 let toks: Vec<&str> = l.split_whitespace().collect();
-                writeln!(real, "{}", pure::eval(&toks)).unwrap();
+                writeln!(real, "{}", pure::eval_caught(&toks)).unwrap();
             }
             writeln!(ops, "end").unwrap();
             writeln!(real, "end").unwrap();
